@@ -268,7 +268,7 @@ class Transformer(ast.NodeTransformer):
         els.body[0].body = self.arm(node.orelse) or [ast.Pass()]
         post = []
         for x in names:
-            post += parse(f'{x} = __sx__.phi({t}, {t}_a_{x}, __sx__.load(lambda: {x}), {x!r})')
+            post += parse(f'{x} = __sx__.phi({t}, {t}_a_{x}, __sx__.load(lambda: {x}), {x!r}, {site!r})')
         out = pre + [then] + mid + [els] + post
         for s in out:
             for n in ast.walk(s):
